@@ -11,6 +11,7 @@ import DV.Generated.Dict
 import DV.Generated.Classes
 import DV.Generated.Commands
 import DV.Generated.Constants
+import DV.Generated.Threads
 import DV.Generated.Names
 import Std.Data.HashMap
 
@@ -207,6 +208,19 @@ def handle (toks : List String) : String :=
         s!"{mc.answerClass} {showHeader ha} REQ {showHeader hreq}"
       | none => "BAD"
     | _, _, _, _, _, _, _ => "BAD"
+  | ["GENSEQ", which, start, n] =>
+    let mx := if which == "sess" then Gen.sessMax else Gen.seqMax
+    let s0 := start.toNat?.getD 0
+    " ".intercalate ((List.range (n.toNat?.getD 0)).map fun j => toString (Gens.iter mx (j + 1) s0))
+  | ["GENINIT", now, r] => toString (Gens.e2eInit (now.toNat?.getD 0) (r.toNat?.getD 0))
+  | "GENSESS" :: ident :: base :: seq :: opts =>
+    Gens.sessionId ident (base.toNat?.getD 0) (seq.toNat?.getD 0) opts
+  | ["GENSCHED", which, start, nthr, sched] =>
+    let mx := if which == "sess" then Gen.sessMax else Gen.seqMax
+    let P := if which == "sess" then Gen.sessProgram else Gen.seqProgram
+    let sc := (sched.splitOn ",").filterMap String.toNat?
+    let g := Gens.runSched mx P (Gens.initGS (start.toNat?.getD 0) (nthr.toNat?.getD 0)) sc
+    "|".intercalate (g.thrs.map fun th => ",".intercalate (th.outs.map toString)) ++ " seq=" ++ toString g.seq
   | "FRAME" :: chunks =>
     match chunks.mapM ofHex with
     | none => "BAD"
